@@ -1556,6 +1556,24 @@ CS104_Slave_setConnectionEventHandler(CS104_Slave self, CS104_ConnectionEventHan
     self->connectionEventHandlerParameter = parameter;
 }
 
+static bool
+MasterConnection_isUsed(MasterConnection self)
+{
+    bool isUsed;
+
+#if (CONFIG_USE_SEMAPHORES == 1)
+    Semaphore_wait(self->stateLock);
+#endif
+
+    isUsed = self->isUsed;
+
+#if (CONFIG_USE_SEMAPHORES == 1)
+    Semaphore_post(self->stateLock);
+#endif
+
+    return isUsed;
+}
+
 /**
  * Activate connection and deactivate existing active connections if required
  */
@@ -1574,7 +1592,7 @@ CS104_Slave_activate(CS104_Slave self, MasterConnection connectionToActivate)
         for (i = 0; i < CONFIG_CS104_MAX_CLIENT_CONNECTIONS; i++) {
             MasterConnection con = self->masterConnections[i];
 
-            if (con && con->isUsed) {
+            if (con && MasterConnection_isUsed(con)) {
                 if (con != connectionToActivate)
                     MasterConnection_deactivate(con);
             }
@@ -1602,7 +1620,7 @@ CS104_Slave_activate(CS104_Slave self, MasterConnection connectionToActivate)
         for (i = 0; i < CONFIG_CS104_MAX_CLIENT_CONNECTIONS; i++) {
             MasterConnection con = self->masterConnections[i];
 
-            if (con && con->isUsed) {
+            if (con && MasterConnection_isUsed(con)) {
                 if (con->redundancyGroup == connectionToActivate->redundancyGroup) {
                     if (con != connectionToActivate)
                         MasterConnection_deactivate(con);
@@ -2778,11 +2796,29 @@ handleMessage(MasterConnection self, uint8_t* buffer, int msgSize)
                 return false;
             }
 
-            if (self->state == M_CON_STATE_UNCONFIRMED_STOPPED)
+#if (CONFIG_USE_SEMAPHORES == 1)
+            Semaphore_wait(self->stateLock);
+#endif
+
+            MasterConnectionState conState = self->state;
+
+#if (CONFIG_USE_SEMAPHORES == 1)
+            Semaphore_post(self->stateLock);
+#endif
+
+            if (conState == M_CON_STATE_UNCONFIRMED_STOPPED)
             {
                 if (MasterConnection_hasUnconfirmedMessages(self) == false)
                 {
+#if (CONFIG_USE_SEMAPHORES == 1)
+                    Semaphore_wait(self->stateLock);
+#endif
+
                     self->state = M_CON_STATE_STOPPED;
+
+#if (CONFIG_USE_SEMAPHORES == 1)
+                    Semaphore_post(self->stateLock);
+#endif
 
                     DEBUG_PRINT("CS104 SLAVE: Send STOPDT_CON\n");
 
@@ -2790,7 +2826,7 @@ handleMessage(MasterConnection self, uint8_t* buffer, int msgSize)
                         return false;
                 }
             }
-            else if (self->state == M_CON_STATE_STOPPED)
+            else if (conState == M_CON_STATE_STOPPED)
             {
                 DEBUG_PRINT("CS104 SLAVE: S message in stopped state -> active close\n");
                 /* actively close connection */
@@ -3468,8 +3504,16 @@ MasterConnection_start(MasterConnection self)
         self->connectionThread = NULL;
     }
 
+#if (CONFIG_USE_SEMAPHORES == 1)
+    Semaphore_wait(self->stateLock);
+#endif
+
     self->isRunning = true;
     self->state = M_CON_STATE_STOPPED;
+
+#if (CONFIG_USE_SEMAPHORES == 1)
+    Semaphore_post(self->stateLock);
+#endif
 
     self->connectionThread =
            Thread_create((ThreadExecutionFunction) connectionHandlingThread,
